@@ -9,6 +9,7 @@ import Btcdeb.Crypto.Sha1
 import Btcdeb.Crypto.Ripemd160
 import Btcdeb.Crypto.Ecdsa
 import Btcdeb.Spec.Taproot
+import Btcdeb.Spec.Script
 import Btcdeb.Crypto.Hash
 import Btcdeb.Crypto.Schnorr
 namespace Btcdeb.Glue
@@ -34,6 +35,18 @@ def baseCtx : Model.Ctx where
   checkSequence := fun _ => false
   checkECDSA := fun _ _ _ _ => false
   checkSchnorr := fun _ _ _ _ => .error (.script .UNKNOWN_ERROR)
+
+/-- the specification's oracle for a session without a transaction (what `baseCtx` is measured against): no signature
+    verifies, no lock time is satisfied, the hash functions are the real ones -/
+def baseOracle : Spec.SigOracle where
+  checkLowS := fun sig => Crypto.checkLowS sig
+  checkLockTime := fun _ => false
+  checkSequence := fun _ => false
+  ecdsa := fun _ _ _ _ => false
+  schnorr := fun _ _ _ _ => .error .UNKNOWN_ERROR
+  sha256 := Crypto.sha256
+  ripemd160 := Crypto.ripemd160
+  sha1 := Crypto.sha1
 
 /-- how `Instance::setup_environment` builds its checker (instance.cpp:187-203): `txdata.Init` with the one known
     spent output when requested; an assertion failure inside `Init` cannot happen there (one output, one input) -/
